@@ -86,6 +86,8 @@ def r1(ctx):
     n_calls = 0
     per_fn = {}
     for q, f in sorted(R.funcs.items()):
+        if q in getattr(R, "absorbed", ()):
+            continue        # a new helper spliced into all its callers: its statements are judged there
         ctx.functions.add(q)
         ordinal = {}
         for c in calls(f.node):
@@ -174,6 +176,8 @@ def r3(ctx):
     rngf = {q: f for q, f in R.funcs.items() if has_rng_param(f)}
     ctx.need(len(rngf) >= 25, f"only {len(rngf)} functions with an rng parameter found")
     for fq, f in sorted(R.funcs.items()):
+        if fq in getattr(R, "absorbed", ()):
+            continue
         ordinal = {}
         for call, callees, how in T.resolve_calls(fq):
             targets = [c for c in callees if c in rngf]
